@@ -395,3 +395,30 @@ Theorem C19_site_model_is_spec : forall name g f r en ofs,
   model (input_of (g r) en ofs) = spec (input_of (f r) en ofs).
 Proof. exact site_model_is_spec. Qed.
 Print Assumptions C19_site_model_is_spec.
+
+(* seventh round: _no_escape regenerated from the source is the identity on a str *)
+Theorem C19_no_escape_generated_is_model : forall v, gen_no_escape v = no_escape v.
+Proof. exact gen_no_escape_is_model. Qed.
+Print Assumptions C19_no_escape_generated_is_model.
+
+(* the predicate-mismatch / secured-view / CSRF-origin messages computed with the formats regenerated
+   from the source equal those computed with the reference formats, for every site and argument list *)
+Theorem C19_msite_generated_is_model : forall name args, msite_gen name args = msite_ref name args.
+Proof. exact msite_generated_is_model. Qed.
+Print Assumptions C19_msite_generated_is_model.
+
+(* ... and the page of such an exception is the specification's for the reference message *)
+Theorem C19_site_m_model_is_spec : forall name args g en ofs,
+  msite_gen name args = Some g ->
+  msite_ref name args = Some g /\ model (input_of_m g en ofs) = spec (input_of_m g en ofs).
+Proof. exact site_m_model_is_spec. Qed.
+Print Assumptions C19_site_m_model_is_spec.
+
+(* an empty comment renders exactly as no comment (complements C19_frame_comment, stated for non-empty comments) *)
+Theorem C19_comment_empty_is_none : forall b c i,
+  page_text spec_policy b c (with_comment i (Some [])) = page_text spec_policy b c (with_comment i None).
+Proof. exact comment_empty_is_none. Qed.
+Print Assumptions C19_comment_empty_is_none.
+Theorem C19_spec_comment_empty_is_none : forall i, spec (with_comment i (Some [])) = spec (with_comment i None).
+Proof. exact spec_comment_empty_is_none. Qed.
+Print Assumptions C19_spec_comment_empty_is_none.
